@@ -999,13 +999,16 @@ Section Quiet.
       inversion H; subst. split; [split; assumption|constructor].
   Qed.
 
+  Lemma resume_at_quiet st s s' o : quiet s -> resume_at cfg st s = (s', o) -> quiet s' /\ Forall not_sol o.
+  Proof. unfold resume_at. apply idle_run_quiet. Qed.
+
   Lemma fire_deadline_quiet s s' o :
     IA szany s -> quiet s -> fire_deadline cfg s = (s', o) -> quiet s' /\ Forall not_sol o.
   Proof.
     intros HI [Q1 Q2]. unfold fire_deadline. destruct (s_control s) as [|se dl r|resp is_null retries dl] eqn:Ec.
-    - unfold resume_at. apply idle_run_quiet. split; assumption.
+    - apply resume_at_quiet. split; assumption.
     - destruct (resume_at cfg (stage_of r) (upd_control s CIdle)) as [s1 o1] eqn:E.
-      unfold resume_at in E. apply idle_run_quiet in E; [|split; assumption].
+      apply resume_at_quiet in E; [|split; assumption].
       intros H; inversion H; subst. split; [tauto|]. cbn [app]. constructor; [exact I|]. constructor; [exact I|]. tauto.
     - assert (Hresp : r_fn resp = 130). { destruct HI as [[_ I2] _]. rewrite Ec in I2. exact (proj1 I2). }
       match goal with |- (if ?c then _ else _) = _ -> _ => destruct c end.
@@ -1014,7 +1017,7 @@ Section Quiet.
       + destruct (end_unsol cfg s is_null UrTimeout) as [[s1 ns] o1] eqn:E1.
         apply end_unsol_frame in E1. destruct E1 as (F1 & _ & F3 & F4 & _ & _ & _ & _ & _ & _ & F11).
         destruct (resume_at cfg (St3 ns) s1) as [s2 o2] eqn:E2.
-        unfold resume_at in E2. apply idle_run_quiet in E2; [|split; congruence].
+        apply resume_at_quiet in E2; [|split; congruence].
         intros H; inversion H; subst. split; [tauto|]. cbn [app]. constructor; [exact I|].
         apply Forall_app. split; [apply no_tx_not_sol; exact F11|tauto].
   Qed.
@@ -1054,6 +1057,34 @@ Proof.
   eapply Reach_Inv; [apply szany_small|apply szany_tx| |exact HR]. intros a _. apply Forall_aok_any.
 Qed.
 
+Lemma idle_run_St1 f cfg s :
+  idle_run (S f) cfg St1 s =
+  let '(s1, o1) := match s_pending s with
+                   | Some (from, bc, bytes, d, fid) => handle_from_idle cfg (upd_pending s None) from bc bytes d fid
+                   | None => (s, [])
+                   end in
+  match s_control s1 with
+  | CIdle => let '(s2, o2) := idle_run f cfg St2 s1 in (s2, o1 ++ o2)
+  | _ => (s1, o1)
+  end.
+Proof. reflexivity. Qed.
+
+Lemma on_rx_idle cfg s from bc bytes d :
+  s_control s = CIdle ->
+  on_rx cfg s from bc bytes d =
+  let fid := frame_id_next s in
+  let '(s1, o1) := handle_from_idle cfg (upd_pending (upd_pending (upd_frame_id s fid) (Some (from, bc, bytes, d, fid))) None)
+                                    from bc bytes d fid in
+  match s_control s1 with
+  | CIdle => let '(s2, o2) := idle_run 31 cfg St2 s1 in (s2, o1 ++ o2)
+  | _ => (s1, o1)
+  end.
+Proof.
+  intros Hc. unfold on_rx.
+  change (s_control (upd_frame_id s ((s_frame_id s + 1) mod 4294967296))) with (s_control s). rewrite Hc.
+  unfold idle_loop. change (4 * 8)%nat with (S 31). rewrite idle_run_St1. reflexivity.
+Qed.
+
 (* A step that receives a fragment while idle runs handle_one_request_from_idle on it first; what
    follows in the step (the rest of the idle loop, deadlines firing during the settle time)
    transmits no solicited response. *)
@@ -1072,12 +1103,9 @@ Proof.
   destruct (on_rx cfg (upd_answers s answers) from bc bytes d) as [s1 o1] eqn:E1.
   destruct (advance 64 cfg s1 (s_now s1 + settle_ms)) as [s2 o2] eqn:E2.
   inversion H; subst; clear H.
-  unfold on_rx in E1. change (s_control (upd_frame_id (upd_answers s answers) ((s_frame_id (upd_answers s answers) + 1) mod 4294967296)))
-    with (s_control s) in E1. rewrite Hc in E1.
-  unfold idle_loop in E1. change (4 * 8)%nat with (S 31) in E1. cbn [idle_run] in E1.
-  change (s_pending (upd_pending ?x ?y)) with y in E1. cbv beta iota in E1.
-  change (s_frame_id (upd_answers s answers)) with (s_frame_id s) in E1.
-  fold (frame_id_next s) in E1. fold (rx_state s answers from bc bytes d) in E1.
+  rewrite on_rx_idle in E1 by exact Hc. cbv zeta in E1.
+  change (frame_id_next (upd_answers s answers)) with (frame_id_next s) in E1.
+  fold (rx_state s answers from bc bytes d) in E1.
   destruct (handle_from_idle cfg (rx_state s answers from bc bytes d) from bc bytes d (frame_id_next s)) as [s3 o3] eqn:E3.
   exists s3, o3.
   assert (HI0 : IA szany (rx_state s answers from bc bytes d)) by (split; [exact HInv|apply Forall_aok_any]).
@@ -1094,4 +1122,509 @@ Proof.
   - inversion E1; subst. apply advance_quiet in E2; [|exact HI3|exact Q3].
     exists o2. split; [reflexivity|]. split; [reflexivity|tauto].
   - exfalso. destruct B as [B|[x B]]; cbn in B; congruence.
+Qed.
+
+Lemma classify_rx_state s answers from bc bytes d bc' bytes' ctl fn obj :
+  classify (rx_state s answers from bc bytes d) bc' bytes' ctl fn obj = classify s bc' bytes' ctl fn obj.
+Proof. reflexivity. Qed.
+
+Lemma ctl_seq_idem ctl : ctl_seq ctl mod 16 = ctl_seq ctl.
+Proof. unfold ctl_seq. lia. Qed.
+
+(* ---------- 2. solicited responses are correlated with the request ------------------------------ *)
+
+(* a solicited fragment goes to `from` and carries sequence number `seq` *)
+Definition sol_tx_correlated (from seq : N) (o : oobs) : Prop :=
+  match o with
+  | OTx dest b => nth 1 b 0 = 129 -> dest = from /\ ctl_seq (nth 0 b 0) = seq
+  | _ => True
+  end.
+
+Lemma no_tx_corr from seq o : Forall no_tx o -> Forall (sol_tx_correlated from seq) o.
+Proof. apply Forall_impl. intros [] H; try exact I. destruct H. Qed.
+
+Lemma not_sol_corr from seq o : Forall not_sol o -> Forall (sol_tx_correlated from seq) o.
+Proof. apply Forall_impl. intros [] H; try exact I. cbn in *. intros C. rewrite H in C. discriminate. Qed.
+
+Lemma hfi_finish_corr cfg from seq bytes fn s1 resp se o1 s' o :
+  Forall no_tx o1 -> (forall r, resp = Some r -> ctl_seq (r_ctl r) = seq) ->
+  hfi_finish cfg from seq bytes fn s1 resp se false o1 = (s', o) ->
+  (exists rest, o = OInfo (IIdleRequest fn seq) :: rest) /\ Forall (sol_tx_correlated from seq) o.
+Proof.
+  intros Ho1 Hr H. destruct resp as [r|].
+  - apply hfi_finish_some in H. destruct H as (s2 & r' & pre & post & _ & H2 & H3 & H4 & H5 & _).
+    subst o. split; [eauto|]. constructor; [exact I|].
+    apply Forall_app. split; [apply no_tx_corr; exact Ho1|].
+    apply Forall_app. split; [apply no_tx_corr; exact H4|].
+    constructor; [|apply no_tx_corr; exact H5].
+    cbn. intros _. split; [reflexivity|]. rewrite (sent_of_seq _ _ H2). apply Hr. reflexivity.
+  - rewrite hfi_finish_none in H. inversion H; subst. split; [eauto|].
+    constructor; [exact I|apply no_tx_corr; exact Ho1].
+Qed.
+
+Lemma hfi_corr cfg s0 from bytes d fid ctl fn obj s1 o1 :
+  to_treq cfg from d = TqRequest ctl fn obj ->
+  (forall last, classify s0 None bytes ctl fn obj <> FtRepeatNonRead last) ->
+  handle_from_idle cfg s0 from None bytes d fid = (s1, o1) ->
+  (exists rest, o1 = OInfo (IIdleRequest fn (ctl_seq ctl)) :: rest) /\
+  Forall (sol_tx_correlated from (ctl_seq ctl)) o1.
+Proof.
+  intros Htq Hnr. rewrite handle_from_idle_eq, Htq. cbv zeta.
+  destruct (classify s0 None bytes ctl fn obj) as [iin2|hdrs rh|resp hdrs rh|hdrs|last|m|q|q] eqn:Ecl.
+  - apply hfi_finish_corr; [constructor|]. intros r Hr; inversion Hr; subst. cbn [empty_solicited r_ctl].
+    rewrite ctl_byte_seq. apply ctl_seq_idem.
+  - destruct (format_first_read_response s0 (ctl_seq ctl)) as [[[s2 r] se] o2] eqn:E.
+    apply format_first_read_response_spec in E. destruct E as (_ & E2 & _ & (fin & con & E4 & _) & _).
+    apply hfi_finish_corr; [exact E2|]. intros r0 Hr; inversion Hr; subst. rewrite E4, ctl_byte_seq. apply ctl_seq_idem.
+  - destruct (format_first_read_response s0 (ctl_seq ctl)) as [[[s2 r] se] o2] eqn:E.
+    apply format_first_read_response_spec in E. destruct E as (_ & E2 & _ & (fin & con & E4 & _) & _).
+    apply hfi_finish_corr; [exact E2|]. intros r0 Hr; inversion Hr; subst. rewrite E4, ctl_byte_seq. apply ctl_seq_idem.
+  - destruct (handle_non_read cfg s0 fn (ctl_seq ctl) fid bytes hdrs) as [[s2 r] o2] eqn:E.
+    apply handle_non_read_spec in E. destruct E as (_ & E2 & E3).
+    apply hfi_finish_corr; [exact E2|]. intros r0 Hr. destruct (E3 r0 Hr) as [E4 _].
+    rewrite E4, ctl_byte_seq. apply ctl_seq_idem.
+  - exfalso. exact (Hnr last eq_refl).
+  - destruct (process_broadcast cfg s0 m fid ctl fn bytes obj) as [s2 o2] eqn:E.
+    apply process_broadcast_spec in E. destruct E as [_ E2].
+    intros H; inversion H; subst. split; [eauto|]. constructor; [exact I|apply no_tx_corr; exact E2].
+  - intros H; inversion H; subst. split; [eauto|repeat constructor].
+  - intros H; inversion H; subst. split; [eauto|repeat constructor].
+Qed.
+
+(* In a step that processes an accepted unicast request from idle, the first observation names the
+   request, and EVERY solicited fragment of the step (there is at most one) is addressed to the
+   sender and carries the request's sequence number.  (A verbatim retransmission of a non-READ
+   request, answered by repeating the recorded response, is the subject of solicited_repeat.) *)
+Theorem solicited_correlated : forall AP cfg s from bytes d answers ctl fn obj,
+  Reach AP cfg s -> s_control s = CIdle ->
+  to_treq cfg from d = TqRequest ctl fn obj ->
+  (forall last, classify s None bytes ctl fn obj <> FtRepeatNonRead last) ->
+  (exists rest, snd (ostep cfg s (ERx from None bytes d) answers) = OInfo (IIdleRequest fn (ctl_seq ctl)) :: rest) /\
+  Forall (sol_tx_correlated from (ctl_seq ctl)) (snd (ostep cfg s (ERx from None bytes d) answers)).
+Proof.
+  intros AP cfg s from bytes d answers ctl fn obj HR Hc Htq Hnr.
+  destruct (ostep cfg s (ERx from None bytes d) answers) as [s' out] eqn:E.
+  destruct (ostep_rx_idle _ _ _ _ _ _ _ _ _ _ HR Hc E) as (s1 & o1 & rest & H1 & H2 & H3).
+  apply hfi_corr with (ctl := ctl) (fn := fn) (obj := obj) in H1; [|exact Htq|].
+  2:{ intros last. rewrite classify_rx_state. apply Hnr. }
+  destruct H1 as [[rest1 H1] H4]. cbn [snd]. subst out. split.
+  - rewrite H1. cbn [app]. eauto.
+  - apply Forall_app. split; [exact H4|apply not_sol_corr; exact H3].
+Qed.
+
+(* the retransmission case: the one solicited fragment of the step is the recorded response of the
+   request with the same sequence number and the same bytes, sent again to the sender *)
+Theorem solicited_repeat : forall AP cfg s from bytes d answers ctl fn obj last,
+  Reach AP cfg s -> s_control s = CIdle ->
+  to_treq cfg from d = TqRequest ctl fn obj ->
+  classify s None bytes ctl fn obj = FtRepeatNonRead last ->
+  (exists l, s_last s = Some l /\ lr_seq l = ctl_seq ctl /\ lr_bytes l = bytes /\ lr_response l = last) /\
+  Forall (fun o => match o with
+                   | OTx dest b => nth 1 b 0 = 129 ->
+                                   dest = from /\ exists r buf, last = Some r /\ b = response_bytes r buf
+                   | _ => True
+                   end) (snd (ostep cfg s (ERx from None bytes d) answers)).
+Proof.
+  intros AP cfg s from bytes d answers ctl fn obj last HR Hc Htq Hcl. split.
+  - unfold classify in Hcl. destruct (fn =? fn_confirm); [destruct (ctl_uns ctl); discriminate|].
+    destruct obj as [e|hdrs rh]; [discriminate|]. destruct (s_last s) as [l|].
+    + destruct ((lr_seq l =? ctl_seq ctl) && bytes_eqb (lr_bytes l) bytes) eqn:Erep;
+        destruct (fn =? fn_read); inversion Hcl; subst.
+      apply andb_true_iff in Erep. destruct Erep as [R1 R2]. apply N.eqb_eq in R1. apply bytes_eqb_eq in R2.
+      exists l. auto.
+    + destruct (fn =? fn_read); discriminate.
+  - destruct (ostep cfg s (ERx from None bytes d) answers) as [s' out] eqn:E.
+    destruct (ostep_rx_idle _ _ _ _ _ _ _ _ _ _ HR Hc E) as (s1 & o1 & rest & H1 & H2 & H3).
+    cbn [snd]. subst out. apply Forall_app. split.
+    + rewrite handle_from_idle_eq, Htq in H1. cbv zeta in H1. rewrite classify_rx_state, Hcl in H1.
+      destruct last as [r|].
+      * apply hfi_finish_some in H1. destruct H1 as (s2 & r' & pre & post & _ & G2 & G3 & G4 & G5 & _).
+        subst o1 r'. constructor; [exact I|]. cbn [app].
+        apply Forall_app. split; [eapply Forall_impl; [|exact G4]; intros [] Hn; try exact I; destruct Hn|].
+        constructor; [|eapply Forall_impl; [|exact G5]; intros [] Hn; try exact I; destruct Hn].
+        intros _. split; [reflexivity|]. eauto.
+      * rewrite hfi_finish_none in H1. inversion H1; subst. repeat constructor.
+    + eapply Forall_impl; [|exact H3]. intros [] Hn; try exact I. cbn in Hn. intros C. rewrite Hn in C. discriminate.
+Qed.
+
+(* ---------- 4. function codes that forbid a reply ---------------------------------------------- *)
+
+Lemma handle_controls_nr cfg s seq fid bytes hdrs s1 r o :
+  handle_controls cfg s 6 seq fid bytes hdrs = (s1, r, o) -> r = None.
+Proof.
+  unfold handle_controls. change (6 =? fn_direct_operate_nr) with true. cbv iota.
+  destruct (negb (all_controls hdrs)); [intros H; inversion H; reflexivity|].
+  destruct (noack_headers s cfg 0 false hdrs) as [cbs started]. intros H; inversion H; reflexivity.
+Qed.
+
+Lemma hnr_no_reply cfg s fn seq fid bytes hdrs s1 r o :
+  In fn [6; 8; 10; 12] -> handle_non_read cfg s fn seq fid bytes hdrs = (s1, r, o) -> r = None.
+Proof.
+  intros Hin. rewrite handle_non_read_eq.
+  destruct (hnr_body cfg s fn seq fid bytes hdrs) as [[s' r'] o'] eqn:E.
+  assert (Hr : r' = None).
+  { cbn [In] in Hin. destruct Hin as [<-|[<-|[<-|[<-|[]]]]].
+    - rewrite hnr_body_direct_operate_nr in E. eapply handle_controls_nr; exact E.
+    - rewrite hnr_body_freeze_nr in E. destruct (handle_freeze cfg 0 hdrs). inversion E; reflexivity.
+    - rewrite hnr_body_freeze_clear_nr in E. destruct (handle_freeze cfg 1 hdrs). inversion E; reflexivity.
+    - rewrite hnr_body_freeze_at_time_nr in E. destruct (handle_freeze_at_time cfg None hdrs). inversion E; reflexivity. }
+  subst r'. intros H; inversion H; reflexivity.
+Qed.
+
+(* A well-formed unicast CONFIRM, DIRECT_OPERATE_NR, IMMED_FREEZE_NR, FREEZE_CLEAR_NR or
+   FREEZE_AT_TIME_NR processed from idle is not answered: no solicited fragment in the whole step
+   (an unsolicited response the idle loop starts afterwards has function code 130).  The hypothesis
+   on the classification excludes only the verbatim retransmission of a request for which a response
+   was recorded; see the remark at solicited_repeat. *)
+Theorem no_reply_functions : forall AP cfg s from bytes d answers ctl fn hdrs rh,
+  Reach AP cfg s -> s_control s = CIdle ->
+  to_treq cfg from d = TqRequest ctl fn (ObjOk hdrs rh) ->
+  In fn [0; 6; 8; 10; 12] ->
+  (forall r, classify s None bytes ctl fn (ObjOk hdrs rh) <> FtRepeatNonRead (Some r)) ->
+  Forall not_sol (snd (ostep cfg s (ERx from None bytes d) answers)).
+Proof.
+  intros AP cfg s from bytes d answers ctl fn hdrs rh HR Hc Htq Hin Hnr.
+  destruct (ostep cfg s (ERx from None bytes d) answers) as [s' out] eqn:E.
+  destruct (ostep_rx_idle _ _ _ _ _ _ _ _ _ _ HR Hc E) as (s1 & o1 & rest & H1 & H2 & H3).
+  cbn [snd]. subst out. apply Forall_app. split; [|exact H3]. apply no_tx_not_sol.
+  rewrite handle_from_idle_eq, Htq in H1. cbv zeta in H1. rewrite classify_rx_state in H1.
+  cbn [In] in Hin. destruct Hin as [<-|Hin].
+  { unfold classify in H1. change (0 =? fn_confirm) with true in H1. cbv iota in H1.
+    destruct (ctl_uns ctl); inversion H1; subst; repeat constructor. }
+  assert (Hfn : (fn =? fn_confirm) = false /\ (fn =? fn_read) = false).
+  { destruct Hin as [<-|[<-|[<-|[<-|[]]]]]; split; reflexivity. }
+  destruct Hfn as [Hf0 Hf1].
+  destruct (classify s None bytes ctl fn (ObjOk hdrs rh)) as [iin2|hdrs' rh'|resp hdrs' rh'|hdrs'|last|m|q|q] eqn:Ecl;
+    unfold classify in Ecl; rewrite Hf0, Hf1 in Ecl;
+    try (destruct (match s_last s with Some l => (lr_seq l =? ctl_seq ctl) && bytes_eqb (lr_bytes l) bytes | None => false end);
+         discriminate).
+  - destruct (handle_non_read cfg (rx_state s answers from None bytes d) fn (ctl_seq ctl) (frame_id_next s) bytes hdrs')
+      as [[s2 r] o2] eqn:E2.
+    pose proof (hnr_no_reply _ _ _ _ _ _ _ _ _ _ Hin E2) as Hr. subst r.
+    apply handle_non_read_spec in E2. destruct E2 as (_ & E2 & _).
+    rewrite hfi_finish_none in H1. inversion H1; subst. constructor; [exact I|exact E2].
+  - destruct last as [r|]; [exfalso; apply (Hnr r); reflexivity|].
+    rewrite hfi_finish_none in H1. inversion H1; subst. repeat constructor.
+Qed.
+
+(* ---------- 5. rejections are reported ---------------------------------------------------------- *)
+
+(* a request the session does not execute, or of which it rejects some object header *)
+Definition hdr_rejected (cfg : ocfg) (fn : N) (hdrs : list whdr) : Prop :=
+  fn_executed fn = false \/
+  (fn = 2 /\ existsb (write_rejects cfg) hdrs = true) \/
+  (In fn [3; 4; 5] /\ existsb (fun h => negb (is_ctl_hdr h)) hdrs = true) \/
+  ((fn = 7 \/ fn = 9) /\ existsb (freeze_rejects cfg) hdrs = true) \/
+  (fn = 11 /\ existsb (freeze_at_time_rejects cfg) hdrs = true) \/
+  ((fn = 20 \/ fn = 21) /\ (o_unsol cfg = false \/ existsb (fun h => negb (unsol_class_hdr h)) hdrs = true)) \/
+  (In fn [13; 14; 23; 24] /\ hdrs <> []).
+
+Lemma hnr_body_cold cfg s seq fid bytes hdrs :
+  hnr_body cfg s 13 seq fid bytes hdrs =
+  let '(s1, r) := restart_response seq s (o_cold cfg) in (s1, Some r, [OCb CbColdRestart]).
+Proof. reflexivity. Qed.
+Lemma hnr_body_warm cfg s seq fid bytes hdrs :
+  hnr_body cfg s 14 seq fid bytes hdrs =
+  let '(s1, r) := restart_response seq s (o_warm cfg) in (s1, Some r, [OCb CbWarmRestart]).
+Proof. reflexivity. Qed.
+
+Lemma hnr_rejected cfg s fn seq fid bytes hdrs s1 r o :
+  hdr_rejected cfg fn hdrs -> handle_non_read cfg s fn seq fid bytes hdrs = (s1, r, o) ->
+  exists r0, r = Some r0 /\ N.land (r_iin2 r0) 7 <> 0.
+Proof.
+  intros Hrej. rewrite handle_non_read_eq.
+  destruct (hnr_body cfg s fn seq fid bytes hdrs) as [[s' r'] o'] eqn:E.
+  assert (Hr : exists r0, r' = Some r0 /\ (N.land (r_iin2 r0) 7 <> 0 \/ N.land (hnr_extra fn hdrs) 7 <> 0)).
+  { destruct Hrej as [Hd|[[-> Hw]|[[Hin Hc]|[[Hf Hz]|[[-> Hz]|[[Hf Hu]|[Hin Hne]]]]]]].
+    - rewrite hnr_body_default in E by exact Hd. inversion E; subst. eexists. split; [reflexivity|].
+      left. cbn. discriminate.
+    - rewrite hnr_body_write in E. destruct (handle_write_headers cfg s hdrs) as [[s2 v] o2] eqn:E2.
+      inversion E; subst. eexists. split; [reflexivity|]. left. cbn [empty_solicited r_iin2].
+      eapply handle_write_headers_rejects; eassumption.
+    - assert (E' : handle_controls cfg s fn seq fid bytes hdrs = (s', r', o')).
+      { cbn [In] in Hin. destruct Hin as [<-|[<-|[<-|[]]]]; exact E. }
+      rewrite handle_controls_rejects in E'; [|exact Hc|cbn [In] in Hin; destruct Hin as [<-|[<-|[<-|[]]]]; reflexivity].
+      inversion E'; subst. eexists. split; [reflexivity|]. left. cbn. discriminate.
+    - pose proof (handle_freeze_rejects cfg 0 hdrs Hz) as Hz0. pose proof (handle_freeze_rejects cfg 1 hdrs Hz) as Hz1.
+      destruct Hf as [-> | ->].
+      + rewrite hnr_body_freeze in E. destruct (handle_freeze cfg 0 hdrs) as [v o2]. inversion E; subst.
+        eexists. split; [reflexivity|]. left. exact Hz0.
+      + rewrite hnr_body_freeze_clear in E. destruct (handle_freeze cfg 1 hdrs) as [v o2]. inversion E; subst.
+        eexists. split; [reflexivity|]. left. exact Hz1.
+    - pose proof (handle_freeze_at_time_rejects cfg hdrs None Hz) as Hz0.
+      rewrite hnr_body_freeze_at_time in E. destruct (handle_freeze_at_time cfg None hdrs) as [v o2]. inversion E; subst.
+      eexists. split; [reflexivity|]. left. exact Hz0.
+    - pose proof (enable_disable_rejects cfg s true seq hdrs Hu) as Ht.
+      pose proof (enable_disable_rejects cfg s false seq hdrs Hu) as Hf'.
+      destruct Hf as [-> | ->].
+      + rewrite hnr_body_enable in E. destruct (enable_disable cfg s true seq hdrs) as [s2 r2]. inversion E; subst.
+        eexists. split; [reflexivity|]. left. exact Ht.
+      + rewrite hnr_body_disable in E. destruct (enable_disable cfg s false seq hdrs) as [s2 r2]. inversion E; subst.
+        eexists. split; [reflexivity|]. left. exact Hf'.
+    - assert (Hex : N.land (hnr_extra fn hdrs) 7 <> 0).
+      { unfold hnr_extra. cbn [In] in Hin. destruct hdrs as [|h hdrs]; [contradiction|].
+        destruct Hin as [<-|[<-|[<-|[<-|[]]]]]; cbn; discriminate. }
+      cbn [In] in Hin. destruct Hin as [<-|[<-|[<-|[<-|[]]]]].
+      + rewrite hnr_body_cold in E. destruct (restart_response seq s (o_cold cfg)) as [s2 r2]. inversion E; subst. eauto.
+      + rewrite hnr_body_warm in E. destruct (restart_response seq s (o_warm cfg)) as [s2 r2]. inversion E; subst. eauto.
+      + cbv [hnr_body] in E. change (23 =? fn_write) with false in E. change (23 =? fn_delay_measure) with true in E.
+        cbv iota in E. inversion E; subst. eauto.
+      + cbv [hnr_body] in E. change (24 =? fn_write) with false in E. change (24 =? fn_delay_measure) with false in E.
+        change (24 =? fn_record_time) with true in E. cbv iota in E. inversion E; subst. eauto. }
+  destruct Hr as (r0 & -> & Hr). intros H; inversion H; subst.
+  eexists. split; [reflexivity|]. cbn [with_iin2 r_iin2]. destruct Hr as [Hr|Hr]; [apply land7_lor|apply land7_lor_r]; exact Hr.
+Qed.
+
+Definition reports_rejection (from seq : N) (out : list oobs) : Prop :=
+  exists pre b post, out = pre ++ OTx from b :: post /\ Forall no_tx pre /\
+    nth 1 b 0 = 129 /\ ctl_seq (nth 0 b 0) = seq /\ N.land (nth 3 b 0) 7 <> 0.
+
+Lemma hfi_finish_reports cfg from seq bytes fn s1 r se o1 s' o :
+  Forall no_tx o1 -> r_fn r = fn_response -> ctl_seq (r_ctl r) = seq -> N.land (r_iin2 r) 7 <> 0 ->
+  hfi_finish cfg from seq bytes fn s1 (Some r) se false o1 = (s', o) ->
+  reports_rejection from seq o.
+Proof.
+  intros Ho1 Hfn Hseq Hiin H. apply hfi_finish_some in H.
+  destruct H as (s2 & r' & pre & post & _ & H2 & H3 & H4 & H5 & _).
+  exists (OInfo (IIdleRequest fn seq) :: o1 ++ pre), (response_bytes r' (s_sol_buf s2)), post.
+  split; [subst o; cbn [app]; rewrite <- app_assoc; reflexivity|].
+  split; [constructor; [exact I|apply Forall_app; split; assumption]|].
+  rewrite response_bytes_nth0, response_bytes_nth1, response_bytes_nth3.
+  pose proof (sent_of_seq _ _ H2) as Hs. destruct H2 as (A & _ & _ & [x D]).
+  split; [rewrite A; exact Hfn|]. split; [rewrite Hs; exact Hseq|]. rewrite D. apply land7_lor. exact Hiin.
+Qed.
+
+Theorem rejection_reported : forall AP cfg s from bytes d answers ctl fn obj,
+  Reach AP cfg s -> s_control s = CIdle ->
+  to_treq cfg from d = TqRequest ctl fn obj -> fn <> 0 ->
+  (forall last, classify s None bytes ctl fn obj <> FtRepeatNonRead last) ->
+  match obj with
+  | ObjErr iin2 => N.land iin2 7 <> 0
+  | ObjOk hdrs _ => fn <> 1 /\ hdr_rejected cfg fn hdrs
+  end ->
+  reports_rejection from (ctl_seq ctl) (snd (ostep cfg s (ERx from None bytes d) answers)).
+Proof.
+  intros AP cfg s from bytes d answers ctl fn obj HR Hc Htq Hf0 Hnr Hrej.
+  destruct (ostep cfg s (ERx from None bytes d) answers) as [s' out] eqn:E.
+  destruct (ostep_rx_idle _ _ _ _ _ _ _ _ _ _ HR Hc E) as (s1 & o1 & rest & H1 & H2 & H3).
+  cbn [snd]. subst out.
+  assert (Ho1 : reports_rejection from (ctl_seq ctl) o1).
+  { rewrite handle_from_idle_eq, Htq in H1. cbv zeta in H1. rewrite classify_rx_state in H1.
+    assert (Hf0' : (fn =? fn_confirm) = false) by (apply N.eqb_neq; exact Hf0).
+    destruct obj as [iin2|hdrs rh].
+    - unfold classify in H1. rewrite Hf0' in H1.
+      refine (hfi_finish_reports _ _ _ _ _ _ _ _ _ _ _ _ _ _ _ H1); [constructor|reflexivity| |exact Hrej].
+      cbn [empty_solicited r_ctl]. rewrite ctl_byte_seq. apply ctl_seq_idem.
+    - destruct Hrej as [Hf1 Hrej]. assert (Hf1' : (fn =? fn_read) = false) by (apply N.eqb_neq; exact Hf1).
+      destruct (classify s None bytes ctl fn (ObjOk hdrs rh)) as [iin2|hdrs' rh'|resp hdrs' rh'|hdrs'|last|m|q|q] eqn:Ecl;
+        try (exfalso; unfold classify in Ecl; rewrite Hf0', Hf1' in Ecl;
+             destruct (match s_last s with Some l => (lr_seq l =? ctl_seq ctl) && bytes_eqb (lr_bytes l) bytes | None => false end);
+             discriminate).
+      + assert (hdrs' = hdrs).
+        { unfold classify in Ecl. rewrite Hf0', Hf1' in Ecl.
+          destruct (match s_last s with Some l => (lr_seq l =? ctl_seq ctl) && bytes_eqb (lr_bytes l) bytes | None => false end);
+            inversion Ecl; reflexivity. }
+        subst hdrs'.
+        destruct (handle_non_read cfg (rx_state s answers from None bytes d) fn (ctl_seq ctl) (frame_id_next s) bytes hdrs)
+          as [[s2 r] o2] eqn:E2.
+        destruct (hnr_rejected _ _ _ _ _ _ _ _ _ _ Hrej E2) as (r0 & -> & Hiin).
+        apply handle_non_read_spec in E2. destruct E2 as (_ & E2 & E3). destruct (E3 r0 eq_refl) as [E4 E5].
+        refine (hfi_finish_reports _ _ _ _ _ _ _ _ _ _ _ _ _ _ _ H1); [exact E2|exact E5| |exact Hiin].
+        rewrite E4, ctl_byte_seq. apply ctl_seq_idem.
+      + exfalso. exact (Hnr last eq_refl). }
+  destruct Ho1 as (pre & b & post & G1 & G2 & G3).
+  exists pre, b, (post ++ rest). split; [subst o1; rewrite <- app_assoc; reflexivity|]. split; assumption.
+Qed.
+
+Lemma land_lor_1 x : N.land (N.lor 1 x) 1 = 1.
+Proof. apply land_lor_absorb. Qed.
+
+(* unknown function codes and invalid header flags: answered with NO_FUNC_CODE_SUPPORT, with the
+   sequence number of the offending fragment *)
+Theorem header_error_reported : forall AP cfg s from bytes d answers q,
+  Reach AP cfg s -> s_control s = CIdle ->
+  to_treq cfg from d = TqError (Some q) ->
+  exists pre b post,
+    snd (ostep cfg s (ERx from None bytes d) answers) = pre ++ OTx from b :: post /\ Forall no_tx pre /\
+    Forall not_sol post /\
+    nth 1 b 0 = 129 /\ ctl_seq (nth 0 b 0) = q mod 16 /\ N.land (nth 3 b 0) 1 = 1.
+Proof.
+  intros AP cfg s from bytes d answers q HR Hc Htq.
+  destruct (ostep cfg s (ERx from None bytes d) answers) as [s' out] eqn:E.
+  destruct (ostep_rx_idle _ _ _ _ _ _ _ _ _ _ HR Hc E) as (s1 & o1 & rest & H1 & H2 & H3).
+  cbn [snd]. subst out. rewrite handle_from_idle_eq, Htq in H1.
+  apply write_error_response_spec in H1. destruct H1 as [_ (r' & pre & G1 & G2 & G3)].
+  exists pre, (response_bytes r' (s_sol_buf s1)), rest.
+  split; [subst o1; rewrite <- app_assoc; reflexivity|]. split; [exact G3|]. split; [exact H3|].
+  rewrite response_bytes_nth0, response_bytes_nth1, response_bytes_nth3.
+  pose proof (sent_of_seq _ _ G1) as Hs. destruct G1 as (A & _ & _ & [x D]).
+  split; [exact A|]. split; [rewrite Hs; cbn [empty_solicited r_ctl]; apply ctl_byte_seq|].
+  rewrite D. apply land_lor_1.
+Qed.
+
+(* ---------- 2 (continued). the fragment after a solicited confirm; the deferred READ ------------- *)
+
+Lemma seq16_next_idem q : seq16_next q mod 16 = seq16_next q.
+Proof. unfold seq16_next. lia. Qed.
+
+(* A CONFIRM with the expected sequence number, received while a non-final fragment of a response
+   series awaits confirmation, is followed by the next fragment: to the confirming master, FIR
+   clear, sequence number = confirmed sequence + 1 mod 16.  Nothing else solicited is sent. *)
+Theorem next_fragment_sequence : forall AP cfg s answers from bytes d se dl r ctl obj,
+  Reach AP cfg s ->
+  s_control s = CSolWait se dl r -> se_fin se = false ->
+  to_treq cfg from d = TqRequest ctl 0 obj -> ctl_uns ctl = false -> ctl_seq ctl = se_ecsn se ->
+  exists pre b post,
+    snd (on_rx cfg (upd_answers s answers) from None bytes d) = pre ++ OTx from b :: post /\
+    Forall no_tx pre /\ Forall not_sol post /\ nth 1 b 0 = 129 /\
+    ctl_seq (nth 0 b 0) = seq16_next (se_ecsn se) /\ N.testbit (nth 0 b 0) 7 = false.
+Proof.
+  intros AP cfg s answers from bytes d se dl r ctl obj HR Hc Hfin Htq Huns Hseq.
+  pose proof (Reach_J cfg AP s HR) as [J1 J2].
+  assert (Hd : s_deferred s = None) by (apply J2; rewrite Hc; reflexivity).
+  unfold on_rx.
+  set (s0 := upd_frame_id (upd_answers s answers) ((s_frame_id (upd_answers s answers) + 1) mod 4294967296)).
+  change (s_control s0) with (s_control s). rewrite Hc.
+  assert (Hsw : sol_wait_fragment cfg s0 se dl from None bytes d = (SoConfirmed from, [OInfo (ISolConfirmed (se_ecsn se))])).
+  { unfold sol_wait_fragment. rewrite Htq. unfold classify. change (0 =? fn_confirm) with true. cbv iota.
+    rewrite Huns, Hseq, N.eqb_refl. reflexivity. }
+  rewrite Hsw, Hfin.
+  match goal with |- context [format_read_response ?a ?b ?c ?e] =>
+    destruct (format_read_response a b c e) as [[[s2 rsp] next] o2] eqn:E2 end.
+  apply format_read_response_spec in E2.
+  destruct E2 as (B1 & B2 & B3 & _ & (fin & con & B4 & _) & _).
+  destruct (write_solicited s2 from rsp) as [[s3 rsp'] o3] eqn:E3.
+  apply write_solicited_spec in E3. destruct E3 as (C1 & (pre3 & C2 & C3) & C4 & C5 & C6 & C7).
+  assert (Hsent : sent_of rsp rsp') by exact (conj C4 (conj C5 (conj C6 C7))).
+  pose proof (sc_trans _ _ _ B1 C1) as S. destruct S as (_ & _ & _ & _ & _ & S6 & _ & S8 & _). cbn in S6, S8.
+  assert (Hb : nth 1 (response_bytes rsp' (s_sol_buf s3)) 0 = 129 /\
+               ctl_seq (nth 0 (response_bytes rsp' (s_sol_buf s3)) 0) = seq16_next (se_ecsn se) /\
+               N.testbit (nth 0 (response_bytes rsp' (s_sol_buf s3)) 0) 7 = false).
+  { rewrite response_bytes_nth0, response_bytes_nth1. split; [rewrite C4; exact B3|]. split.
+    - rewrite (sent_of_seq _ _ Hsent), B4, ctl_byte_seq. apply seq16_next_idem.
+    - rewrite (sent_of_fir _ _ Hsent), B4. apply ctl_byte_fir. }
+  destruct next as [n|].
+  - exists ([OInfo (ISolConfirmed (se_ecsn se))] ++ [ODb DbClearWritten] ++ o2 ++ pre3), (response_bytes rsp' (s_sol_buf s3)), [].
+    cbn [snd]. split; [subst o3; rewrite <- !app_assoc; reflexivity|].
+    split; [repeat (apply Forall_app; split); auto; repeat constructor|]. split; [constructor|exact Hb].
+  - match goal with |- context [resume_at cfg ?a ?b] => destruct (resume_at cfg a b) as [s5 o5] eqn:E5 end.
+    apply resume_at_quiet in E5; [|split; cbn; congruence].
+    exists ([OInfo (ISolConfirmed (se_ecsn se))] ++ [ODb DbClearWritten] ++ o2 ++ pre3), (response_bytes rsp' (s_sol_buf s3)), o5.
+    cbn [snd]. split; [subst o3; rewrite <- !app_assoc; reflexivity|].
+    split; [repeat (apply Forall_app; split); auto; repeat constructor|]. split; [tauto|exact Hb].
+Qed.
+
+(* A READ received while an unsolicited confirmation is awaited is deferred: nothing is sent, its
+   bytes, sequence number and source are recorded ... *)
+Theorem deferred_read_recorded : forall cfg s resp from bytes d fid ctl obj hdrs rh,
+  to_treq cfg from d = TqRequest ctl fn_read obj ->
+  (classify s None bytes ctl fn_read obj = FtNewRead hdrs rh \/
+   exists last, classify s None bytes ctl fn_read obj = FtRepeatRead last hdrs rh) ->
+  exists s',
+    unsol_wait_fragment cfg s resp from None bytes d fid = (s', None, []) /\
+    exists x, s_deferred s' = Some {| df_bytes := bytes; df_seq := ctl_seq ctl; df_from := from; df_iin2 := x |}.
+Proof.
+  intros cfg s resp from bytes d fid ctl obj hdrs rh Htq Hcl. unfold unsol_wait_fragment. rewrite Htq.
+  destruct Hcl as [Hcl|[last Hcl]]; rewrite Hcl; eexists; (split; [reflexivity|]); cbn; eauto.
+Qed.
+
+(* ... and when the wait is over, handle_deferred_read answers it with one solicited fragment
+   (FIR set) addressed to the recorded source and carrying the recorded sequence number *)
+Theorem deferred_read_answered : forall cfg s ns df,
+  s_deferred s = Some df ->
+  exists pre b post,
+    snd (handle_deferred cfg s ns) = pre ++ OTx (df_from df) b :: post /\
+    Forall no_tx pre /\ Forall no_tx post /\ nth 1 b 0 = 129 /\
+    ctl_seq (nth 0 b 0) = df_seq df mod 16 /\ N.testbit (nth 0 b 0) 7 = true /\
+    s_deferred (fst (handle_deferred cfg s ns)) = None.
+Proof.
+  intros cfg s ns df Hd. destruct (handle_deferred cfg s ns) as [s' o] eqn:E.
+  eapply handle_deferred_some in E; [|exact Hd].
+  destruct E as (s3 & r & r' & pre & post & se' & G1 & (fin & con & G2) & _ & G4 & G5 & G6 & G7 & _ & G9 & _).
+  exists pre, (response_bytes r' (s_sol_buf s3)), post. cbn [fst snd].
+  split; [exact G5|]. split; [exact G6|]. split; [exact G7|].
+  rewrite response_bytes_nth0, response_bytes_nth1.
+  split; [destruct G4 as (A & _); rewrite A; exact G1|].
+  split; [rewrite (sent_of_seq _ _ G4), G2; apply ctl_byte_seq|].
+  split; [rewrite (sent_of_fir _ _ G4), G2; apply ctl_byte_fir|exact G9].
+Qed.
+
+(* ---------- 7. fragments of a foreign master (session half of C07) -------------------------------- *)
+
+Lemma upd_control_same s : upd_control s (s_control s) = s.
+Proof. destruct s; reflexivity. Qed.
+
+(* With a configured master address and `from` another address, on_rx only advances the frame
+   counter; when idle, the idle loop is entered at its unsolicited stage exactly as after any
+   wake-up.  The right-hand side does not mention from, bc, bytes or d.  (In a reachable state
+   s_pending s = None, so `upd_pending _ None` changes nothing.) *)
+Theorem foreign_master_inert : forall cfg s from bc bytes d,
+  o_any_master cfg = false -> from <> o_master cfg ->
+  on_rx cfg s from bc bytes d =
+  match s_control s with
+  | CIdle => idle_run 31 cfg St2 (upd_pending (upd_frame_id s (frame_id_next s)) None)
+  | _ => (upd_frame_id s (frame_id_next s), [])
+  end.
+Proof.
+  intros cfg s from bc bytes d Ham Hfrom.
+  assert (Htq : to_treq cfg from d = TqNone).
+  { unfold to_treq. rewrite Ham. apply N.eqb_neq in Hfrom. rewrite Hfrom. reflexivity. }
+  destruct (s_control s) as [|se dl r|resp is_null retries dl] eqn:Ec.
+  - rewrite on_rx_idle by exact Ec. cbv zeta. rewrite handle_from_idle_eq, Htq.
+    change (s_control (upd_pending (upd_pending (upd_frame_id s (frame_id_next s)) (Some (from, bc, bytes, d, frame_id_next s))) None))
+      with (s_control s). rewrite Ec.
+    change (upd_pending (upd_pending (upd_frame_id s (frame_id_next s)) (Some (from, bc, bytes, d, frame_id_next s))) None)
+      with (upd_pending (upd_frame_id s (frame_id_next s)) None).
+    destruct (idle_run 31 cfg St2 (upd_pending (upd_frame_id s (frame_id_next s)) None)) as [s2 o2]. reflexivity.
+  - unfold on_rx. fold (frame_id_next s).
+    change (s_control (upd_frame_id s (frame_id_next s))) with (s_control s). rewrite Ec.
+    unfold sol_wait_fragment. rewrite Htq.
+    replace (CSolWait se dl r) with (s_control (upd_frame_id s (frame_id_next s))) by exact Ec.
+    rewrite upd_control_same. reflexivity.
+  - unfold on_rx. fold (frame_id_next s).
+    change (s_control (upd_frame_id s (frame_id_next s))) with (s_control s). rewrite Ec.
+    unfold unsol_wait_fragment. rewrite Htq. reflexivity.
+Qed.
+
+(* the whole step: the fragment is replaced by nothing *)
+Theorem foreign_master_step : forall cfg s from bc bytes d answers,
+  o_any_master cfg = false -> from <> o_master cfg ->
+  ostep cfg s (ERx from bc bytes d) answers =
+  let s0 := upd_frame_id (upd_answers s answers) (frame_id_next s) in
+  let '(s1, o1) := match s_control s with
+                   | CIdle => idle_run 31 cfg St2 (upd_pending s0 None)
+                   | _ => (s0, [])
+                   end in
+  let '(s2, o2) := advance 64 cfg s1 (s_now s1 + settle_ms) in (s2, o1 ++ o2).
+Proof.
+  intros cfg s from bc bytes d answers Ham Hfrom. unfold ostep.
+  rewrite foreign_master_inert by assumption. cbv zeta.
+  change (s_control (upd_answers s answers)) with (s_control s).
+  change (frame_id_next (upd_answers s answers)) with (frame_id_next s).
+  destruct (match s_control s with
+            | CIdle => idle_run 31 cfg St2 (upd_pending (upd_frame_id (upd_answers s answers) (frame_id_next s)) None)
+            | _ => (upd_frame_id (upd_answers s answers) (frame_id_next s), [])
+            end) as [s1 o1].
+  destruct (advance 64 cfg s1 (s_now s1 + settle_ms)) as [s2 o2]. reflexivity.
+Qed.
+
+(* in particular two fragments of foreign masters are indistinguishable, and nothing of the state
+   but the frame counter changes before the idle loop / the timers run *)
+Corollary foreign_master_indistinguishable : forall cfg s answers from bc bytes d from' bc' bytes' d',
+  o_any_master cfg = false -> from <> o_master cfg -> from' <> o_master cfg ->
+  ostep cfg s (ERx from bc bytes d) answers = ostep cfg s (ERx from' bc' bytes' d') answers.
+Proof. intros. rewrite !foreign_master_step by assumption. reflexivity. Qed.
+
+(* from a reachable state on_rx transmits no solicited response for such a fragment *)
+Corollary foreign_master_no_reply : forall AP cfg s answers from bc bytes d,
+  Reach AP cfg s -> o_any_master cfg = false -> from <> o_master cfg ->
+  Forall not_sol (snd (on_rx cfg (upd_answers s answers) from bc bytes d)).
+Proof.
+  intros AP cfg s answers from bc bytes d HR Ham Hfrom. rewrite foreign_master_inert by assumption.
+  pose proof (Reach_J cfg AP s HR) as [J1 J2].
+  change (s_control (upd_answers s answers)) with (s_control s).
+  destruct (s_control s) eqn:Ec; try (cbn [snd]; constructor).
+  destruct (idle_run 31 cfg St2 (upd_pending (upd_frame_id (upd_answers s answers) (frame_id_next (upd_answers s answers))) None))
+    as [s2 o2] eqn:E.
+  apply idle_run_quiet in E; [exact (proj2 E)|]. split; [reflexivity|]. cbn. apply J2. reflexivity.
 Qed.
